@@ -17,6 +17,7 @@ Case shapes (JSON-native, byte strings as latin-1 str):
 import io
 import os
 import random
+import shutil
 import sys
 import json
 import glob
@@ -69,6 +70,9 @@ SYNTAXES = ['advanced', 'pcjr', 'tandy']
 # --------------------------------------------------------------------------------------------
 # executor
 
+_CODEPAGES = {}
+
+
 def session_kwargs(cfg, sandbox, extra_devices):
     kw = {}
     for k in ('syntax', 'video', 'double', 'max_memory', 'text_width', 'monitor', 'max_files',
@@ -77,8 +81,10 @@ def session_kwargs(cfg, sandbox, extra_devices):
         if k in cfg:
             kw[k] = cfg[k]
     if cfg.get('codepage'):
-        from pcbasic.data import read_codepage
-        kw['codepage'] = read_codepage(cfg['codepage'])
+        if cfg['codepage'] not in _CODEPAGES:
+            from pcbasic.data import read_codepage
+            _CODEPAGES[cfg['codepage']] = read_codepage(cfg['codepage'])
+        kw['codepage'] = _CODEPAGES[cfg['codepage']]
     if cfg.get('textfile_encoding'):
         kw['textfile_encoding'] = cfg['textfile_encoding']
     devices = {'Z': sandbox.z}
@@ -95,6 +101,46 @@ def session_kwargs(cfg, sandbox, extra_devices):
             devices['CAS1'] = 'CAS:' + sandbox.path('tape.cas')
     kw['devices'] = devices
     return kw
+
+
+class ScratchDir(object):
+    """
+    One scratch tree per worker process, emptied (not re-created) between cases: most cases never
+    touch the disk, and creating/removing three directories per case dominated the run time.
+    Same interface as harness.Sandbox (root, z, path(), close()).
+    """
+
+    _inst = {}
+
+    def __init__(self):
+        self._sb = Sandbox()
+        self.root, self.z = self._sb.root, self._sb.z
+
+    @classmethod
+    def get(cls):
+        sd = cls._inst.get(os.getpid())
+        if sd is None or not os.path.isdir(sd.z):
+            sd = cls._inst[os.getpid()] = cls()
+        return sd
+
+    def path(self, *parts):
+        return os.path.join(self.root, *parts)
+
+    def close(self):
+        """Empty the tree; the directories stay for the next case."""
+        for name in os.listdir(self.root):
+            p = os.path.join(self.root, name)
+            if name == 'z':
+                for sub in os.listdir(p):
+                    q = os.path.join(p, sub)
+                    if os.path.isdir(q) and not os.path.islink(q):
+                        shutil.rmtree(q, ignore_errors=True)
+                    else:
+                        os.unlink(q)
+            elif os.path.isdir(p) and not os.path.islink(p):
+                shutil.rmtree(p, ignore_errors=True)
+            else:
+                os.unlink(p)
 
 
 def is_alarm(o):
@@ -158,7 +204,7 @@ def bucket(o, prefix='escaped'):
 def run_steps(case, res, minimise=True):
     """Execute a 'lines' case; returns the key of the escaped exception or None."""
     env = dict(os.environ)
-    sb = Sandbox()
+    sb = ScratchDir.get()
     s = None
     key = None
     try:
@@ -280,7 +326,7 @@ def make_file(case, sb):
 
 def run_file(case, res):
     env = dict(os.environ)
-    sb = Sandbox()
+    sb = ScratchDir.get()
     s = None
     try:
         data = make_file(case, sb)
@@ -753,13 +799,16 @@ def gen_defaults(shard, nshards, tier, seed):
 
 def units(tier):
     return [
-        Unit('grammar', 'hyp', shards=16, examples={'quick': 500, 'thorough': 20000},
-             strategy=strat_grammar),
-        Unit('expr', 'hyp', shards=16, examples={'quick': 150, 'thorough': 6000}, strategy=strat_expr),
-        Unit('mutation', 'hyp', shards=16, examples={'quick': 200, 'thorough': 8000},
-             strategy=strat_mutation),
-        Unit('soup', 'hyp', shards=16, examples={'quick': 200, 'thorough': 6000}, strategy=strat_soup),
-        Unit('files', 'hyp', shards=16, examples={'quick': 150, 'thorough': 5000}, strategy=strat_file),
+        Unit('grammar', 'hyp', shards=16, examples={'quick': 150, 'thorough': 20000},
+             strategy=strat_grammar, per_case_timeout=12.0),
+        Unit('expr', 'hyp', shards=16, examples={'quick': 40, 'thorough': 6000},
+             strategy=strat_expr, per_case_timeout=12.0),
+        Unit('mutation', 'hyp', shards=16, examples={'quick': 50, 'thorough': 8000},
+             strategy=strat_mutation, per_case_timeout=12.0),
+        Unit('soup', 'hyp', shards=16, examples={'quick': 30, 'thorough': 6000},
+             strategy=strat_soup, per_case_timeout=12.0),
+        Unit('files', 'hyp', shards=16, examples={'quick': 50, 'thorough': 5000},
+             strategy=strat_file, per_case_timeout=12.0),
         Unit('defaults', 'enum', shards=8, gen=gen_defaults, per_case_timeout=120.0),
     ]
 
